@@ -46,6 +46,12 @@ pub fn layouts() -> Vec<Layout> {
         b.lead_blank = true;
         out.push(b);
     }
+    // the whole document indented at its root
+    for kind in ["json-pretty", "flow", "block"] {
+        let mut b = Layout::new(kind);
+        b.root_indent = 3;
+        out.push(b);
+    }
     out
 }
 
